@@ -8,7 +8,7 @@ use linfa::traits::{Fit, Transformer};
 use linfa::{DatasetBase, Float};
 use linfa_preprocessing::linear_scaling::{LinearScaler, LinearScalerParams, ScalingMethod};
 use linfa_preprocessing::norm_scaling::NormScaler;
-use linfa_preprocessing::whitening::{FittedWhitener, Whitener};
+use linfa_preprocessing::whitening::{FittedWhitener, Whitener, WhiteningMethod};
 use lvmc_core::refmath;
 use lvmc_core::{guarded, json, Value, Violation};
 use ndarray::{Array1, Array2, ArrayBase, Axis, Data, Ix2};
@@ -233,8 +233,21 @@ pub fn distinct_rows(m: &Mat) -> usize {
 fn case_json(case: &Case, cfg: &str, test: Option<&Mat>, at: Value) -> Value {
     let mut c = case.clone();
     c.cfg = Some(cfg.to_string());
+    // keep the unseen matrices up to and including the failing one: the fitted object is shared by the
+    // whole sequence, so a violation that depends on the calls made before it replays from the artefact
+    let as_seen = |m: &Mat| -> Mat {
+        if case.float == "f32" {
+            m.iter().map(|r| r.iter().map(|&x| x as f32 as f64).collect()).collect()
+        } else {
+            m.clone()
+        }
+    };
     c.tests = match test {
-        Some(t) => vec![t.clone()],
+        Some(t) => match case.tests.iter().position(|u| as_seen(u) == *t) {
+            Some(i) => case.tests[..=i].to_vec(),
+            None => vec![t.clone()],
+        },
+        None if case.kind == "builder" => case.tests.clone(),
         None => vec![],
     };
     let mut v = serde_json::to_value(&c).unwrap();
@@ -1080,6 +1093,7 @@ fn run_whiten<F: Fl>(
 // dataset form: targets, weights, feature and target names pass through unchanged
 // ------------------------------------------------------------------------------------------------
 
+#[derive(Clone)]
 enum Fitted<F: Fl> {
     Lin(LinearScaler<F>),
     Norm(NormScaler),
@@ -1413,6 +1427,245 @@ fn layout_independence<F: Fl>(
     }
 }
 
+// ------------------------------------------------------------------------------------------------
+// builder history / constructor forms, and re-use of one params object / one fitted object
+// ------------------------------------------------------------------------------------------------
+
+/// One params object (re-usable for several fits).
+enum Params<F: Fl> {
+    Lin(LinearScalerParams<F>),
+    Norm(NormScaler),
+    Wh(Whitener),
+}
+impl<F: Fl> Params<F> {
+    fn make(name: &str) -> Params<F> {
+        if let Some(c) = LINS.iter().find(|c| c.name == name) {
+            Params::Lin(lin_params::<F>(c))
+        } else if NORMS.contains(&name) {
+            Params::Norm(norm_scaler(name))
+        } else {
+            Params::Wh(whitener(name))
+        }
+    }
+    fn fit<D: Data<Elem = F>, T: AsTargets>(&self, ds: &DatasetBase<ArrayBase<D, Ix2>, T>) -> Result<Fitted<F>, String> {
+        match self {
+            Params::Lin(p) => p.fit(ds).map(Fitted::Lin).map_err(|e| e.to_string()),
+            Params::Norm(s) => Ok(Fitted::Norm(s.clone())),
+            Params::Wh(w) => w.fit(ds).map(Fitted::Wh).map_err(|e| e.to_string()),
+        }
+    }
+}
+
+fn method_of<F: Fl>(kind: Lin) -> ScalingMethod<F> {
+    match kind {
+        Lin::Std(a, b) => ScalingMethod::Standard(a, b),
+        Lin::MinMax(lo, hi) => ScalingMethod::MinMax(F::cast(lo), F::cast(hi)),
+        Lin::MaxAbs => ScalingMethod::MaxAbs,
+    }
+}
+fn wmethod_of(name: &str) -> WhiteningMethod {
+    match name {
+        "whiten_pca" => WhiteningMethod::Pca,
+        "whiten_zca" => WhiteningMethod::Zca,
+        _ => WhiteningMethod::Cholesky,
+    }
+}
+fn arr_bits<F: Fl>(a: &Array2<F>) -> (usize, usize, Vec<u64>) {
+    (a.nrows(), a.ncols(), a.iter().map(|&x| { let y = f64of(x); if y.is_nan() { u64::MAX } else { y.to_bits() } }).collect())
+}
+
+/// Observable outcome of one params form: fit result kind, accessors, published method, transforms.
+fn outcome<F: Fl>(fit: Result<Result<Fitted<F>, String>, String>, mats: &[&Array2<F>]) -> (String, Vec<u64>, String, Vec<(usize, usize, Vec<u64>)>) {
+    match fit {
+        Err(pm) => (format!("panic: {}", pm), vec![], String::new(), vec![]),
+        Ok(Err(_)) => ("err".to_string(), vec![], String::new(), vec![]),
+        Ok(Ok(f)) => {
+            let method = match &f {
+                Fitted::Lin(s) => format!("{:?}", s.method()),
+                _ => String::new(),
+            };
+            let outs = mats.iter().map(|m| guarded(|| f.tf_arr((*m).clone())).map(|z| arr_bits(&z)).unwrap_or((usize::MAX, 0, vec![]))).collect();
+            ("ok".to_string(), f.accessor_bits(), method, outs)
+        }
+    }
+}
+
+fn run_builder<F: Fl>(case: &Case, v: &mut Vec<Violation>, cnt: &mut Cnt) {
+    let p = case.p;
+    let a: Array2<F> = arr_l(&case.train, p, &case.layout);
+    let xs = seen(&a);
+    let tests: Vec<Array2<F>> = case.tests.iter().map(|t| arr_l(t, p, &case.layout)).collect();
+    let names = all_names(case);
+    let dom = whiten_domain(&xs, p);
+    let mut mats: Vec<&Array2<F>> = vec![&a];
+    mats.extend(tests.iter());
+    let ds = DatasetBase::from(a.view());
+
+    // ---------------- (1) every constructor form / setter history of the same logical parameters ----------------
+    for c in LINS.iter().filter(|c| names.contains(&c.name)) {
+        let target: ScalingMethod<F> = method_of(c.kind);
+        let canonical = lin_params::<F>(c);
+        let want = outcome(guarded(|| canonical.fit(&ds).map(Fitted::Lin).map_err(|e| e.to_string())), &mats);
+        let mut forms: Vec<(String, &'static str, LinearScalerParams<F>)> = vec![(format!("LinearScalerParams::new({:?})", target), "constructor_dependence", LinearScalerParams::new(target.clone()))];
+        for d in LINS.iter().filter(|d| d.name != c.name) {
+            let decoy: ScalingMethod<F> = method_of(d.kind);
+            forms.push((format!("new({:?}).method({:?})", decoy, target), "builder_order_dependence", LinearScalerParams::new(decoy.clone()).method(target.clone())));
+            forms.push((format!("<constructor of {}>.method({:?})", d.name, target), "builder_order_dependence", lin_params::<F>(d).method(target.clone())));
+            forms.push((format!("new({:?}).method({:?}).method({:?})", target, decoy, target), "builder_order_dependence", LinearScalerParams::new(target.clone()).method(decoy.clone()).method(target.clone())));
+            forms.push((format!("<constructor of {}>.method({:?}).method({:?})", c.name, decoy, target), "builder_order_dependence", lin_params::<F>(c).method(decoy).method(target.clone())));
+        }
+        for (label, kind, form) in forms {
+            cnt.evals += 1;
+            cnt.nontrivial += 1;
+            let mk = |what: &str| case_json(case, c.name, None, json!({"op": "builder", "form": label, "what": what}));
+            if form != canonical {
+                v.push(Violation::new(
+                    format!("linear_scaler.{}.params.{}", c.fam, kind),
+                    format!("{}: params built as {} = {:?} differ from the canonical constructor's {:?}", c.name, label, form, canonical),
+                    mk("params equality"),
+                ));
+                continue;
+            }
+            let got = outcome(guarded(|| form.fit(&ds).map(Fitted::Lin).map_err(|e| e.to_string())), &mats);
+            if got.0 == "ok" && got.2 != format!("{:?}", target) {
+                v.push(Violation::new(
+                    format!("linear_scaler.{}.params.{}", c.fam, kind),
+                    format!("{}: fitted from {}: method() reports {} instead of {:?}", c.name, label, got.2, target),
+                    mk("published method"),
+                ));
+            } else if got != want {
+                v.push(Violation::new(
+                    format!("linear_scaler.{}.params.{}", c.fam, kind),
+                    format!("{}: params built as {} fit / transform differently from the canonical constructor (fit: {} vs {}; accessors equal: {}; transforms equal: {})", c.name, label, got.0, want.0, got.1 == want.1, got.3 == want.3),
+                    mk("fit / transform"),
+                ));
+            }
+        }
+    }
+    if dom.full_rank {
+        for &w in WHITENERS.iter().filter(|w| names.contains(*w)) {
+            let target = wmethod_of(w);
+            let canonical = whitener(w);
+            let want = outcome::<F>(guarded(|| canonical.fit(&ds).map(Fitted::Wh).map_err(|e| e.to_string())), &mats);
+            let mut forms: Vec<(String, Whitener)> = Vec::new();
+            for &start in WHITENERS {
+                forms.push((format!("<{}>.method({:?})", start, target), whitener(start).method(target.clone())));
+                for &decoy in WHITENERS {
+                    forms.push((format!("<{}>.method({:?}).method({:?})", start, wmethod_of(decoy), target), whitener(start).method(wmethod_of(decoy)).method(target.clone())));
+                }
+            }
+            for (label, form) in forms {
+                cnt.evals += 1;
+                cnt.nontrivial += 1;
+                let m = &w[7..];
+                let mk = |what: &str| case_json(case, w, None, json!({"op": "builder", "form": label, "what": what}));
+                if form != canonical {
+                    v.push(Violation::new(format!("whitener.{}.params.builder_order_dependence", m), format!("{}: {} = {:?} differs from the canonical constructor's {:?}", w, label, form, canonical), mk("params equality")));
+                    continue;
+                }
+                let got = outcome::<F>(guarded(|| form.fit(&ds).map(Fitted::Wh).map_err(|e| e.to_string())), &mats);
+                if got != want {
+                    v.push(Violation::new(
+                        format!("whitener.{}.params.builder_order_dependence", m),
+                        format!("{}: {} fits / transforms differently from the canonical constructor (fit: {} vs {}; accessors equal: {}; transforms equal: {})", w, label, got.0, want.0, got.1 == want.1, got.3 == want.3),
+                        mk("fit / transform"),
+                    ));
+                }
+            }
+        }
+    }
+
+    // ---------------- (2) one params object fitted several times, one fitted object applied several times ----------------
+    for &name in &names {
+        if name == "minmax_flipped_5_2" || (name.starts_with("whiten_") && !dom.full_rank) {
+            continue;
+        }
+        cnt.evals += 1;
+        cnt.nontrivial += 1;
+        let prefix = sig_prefix(name);
+        let mk = |what: &str| case_json(case, name, None, json!({"op": "reuse", "what": what}));
+        let fit_bits = |r: &Result<Result<Fitted<F>, String>, String>| -> (String, Vec<u64>) {
+            match r {
+                Ok(Ok(f)) => ("ok".into(), f.accessor_bits()),
+                Ok(Err(_)) => ("err".into(), vec![]),
+                Err(_) => ("panic".into(), vec![]),
+            }
+        };
+        // the other training sets: unseen matrices a whitener can be fitted on (others: any with a row)
+        let others: Vec<&Array2<F>> = tests
+            .iter()
+            .filter(|t| t.nrows() > 0 && (!name.starts_with("whiten_") || whiten_domain(&seen(t), p).full_rank))
+            .collect();
+        let params = Params::<F>::make(name);
+        let first = guarded(|| params.fit(&ds));
+        for &b in &others {
+            let dsb = DatasetBase::from(b.view());
+            let again_b = guarded(|| params.fit(&dsb));
+            let fresh_b = guarded(|| Params::<F>::make(name).fit(&dsb));
+            if fit_bits(&again_b) != fit_bits(&fresh_b) {
+                v.push(Violation::new(
+                    format!("{}.params.state_leak_between_fits", prefix),
+                    format!("{}: a params object already fitted on another matrix gives a different fit of a {}x{} matrix than a fresh params object", name, b.nrows(), p),
+                    mk("second fit of the same params object"),
+                ));
+            }
+            let again_a = guarded(|| params.fit(&ds));
+            if fit_bits(&again_a) != fit_bits(&first) {
+                v.push(Violation::new(
+                    format!("{}.params.state_leak_between_fits", prefix),
+                    format!("{}: fitting the same params object on the training matrix again (after a fit on another matrix) does not reproduce its first fit", name),
+                    mk("re-fit of the first matrix"),
+                ));
+            }
+        }
+        let Ok(Ok(fitted)) = first else { continue };
+        let Ok(z1) = guarded(|| fitted.tf_arr(a.clone())) else { continue };
+        let z1b = arr_bits(&z1);
+        let targets: Array1<usize> = Array1::from_iter(0..a.nrows());
+        let mut step = 0;
+        let mut check_a = |how: &str, got: Result<Array2<F>, String>, v: &mut Vec<Violation>| {
+            step += 1;
+            let ok = matches!(&got, Ok(z) if arr_bits(z) == z1b);
+            if !ok {
+                v.push(Violation::new(
+                    format!("{}.state_leak_between_calls", prefix),
+                    format!("{}: step {} ({}): transforming the training matrix again does not reproduce the first answer bit for bit", name, step, how),
+                    mk(how),
+                ));
+            }
+        };
+        for b in tests.iter() {
+            // B through the used object vs through a brand-new fitted object (array, dataset, dataset-view forms)
+            let fresh = guarded(|| Params::<F>::make(name).fit(&ds).map(|f| f.tf_arr(b.clone())));
+            let fresh_bits = match &fresh {
+                Ok(Ok(z)) => Some(arr_bits(z)),
+                _ => None,
+            };
+            let tb: Array1<usize> = Array1::from_iter(0..b.nrows());
+            let forms: Vec<(&str, Result<Array2<F>, String>)> = vec![
+                ("array", guarded(|| fitted.tf_arr(b.clone()))),
+                ("dataset", guarded(|| fitted.tf_ds(DatasetBase::new(b.clone(), tb.clone())).records)),
+                ("dataset view", guarded(|| fitted.tf_ds(DatasetBase::new(b.view(), tb.view())).records)),
+                ("clone of the fitted object", guarded(|| fitted.clone().tf_arr(b.clone()))),
+            ];
+            for (how, got) in forms {
+                cnt.bump("reuse_sequence_steps", 1);
+                let got_bits = got.as_ref().ok().map(arr_bits);
+                if got_bits != fresh_bits {
+                    v.push(Violation::new(
+                        format!("{}.state_leak_between_calls", prefix),
+                        format!("{}: a fitted object that has already transformed other matrices transforms a {}x{} matrix ({} form) differently from a freshly fitted object", name, b.nrows(), p, how),
+                        mk(how),
+                    ));
+                }
+            }
+            check_a("array form after another batch", guarded(|| fitted.tf_arr(a.clone())), v);
+            check_a("dataset form after another batch", guarded(|| fitted.tf_ds(DatasetBase::new(a.clone(), targets.clone())).records), v);
+            check_a("dataset view form after another batch", guarded(|| fitted.tf_ds(DatasetBase::new(a.view(), targets.view())).records), v);
+        }
+    }
+}
+
 pub fn run_case(case: &Case, v: &mut Vec<Violation>) -> Cnt {
     let mut cnt = Cnt::default();
     match (case.kind.as_str(), case.float.as_str()) {
@@ -1422,6 +1675,8 @@ pub fn run_case(case: &Case, v: &mut Vec<Violation>) -> Cnt {
         ("dataset", "f32") => run_dataset::<f32>(case, v, &mut cnt),
         ("errors", "f64") => run_errors::<f64>(case, v, &mut cnt),
         ("errors", "f32") => run_errors::<f32>(case, v, &mut cnt),
+        ("builder", "f64") => run_builder::<f64>(case, v, &mut cnt),
+        ("builder", "f32") => run_builder::<f32>(case, v, &mut cnt),
         _ => panic!("bad case kind / float"),
     }
     cnt
